@@ -190,6 +190,14 @@ func init() {
 		r := fr.i.x.s2results[a[0].(int)]
 		return r.Msg + r.ErrText
 	})
+	reg("REqual", func(fr *frame, a []value) value {
+		r1, r2 := fr.i.x.s2results[a[0].(int)], fr.i.x.s2results[a[1].(int)]
+		if !types.Identical(r1.RecvType, r2.RecvType) {
+			return false
+		}
+		r := fr.i.deepEq(r1.RecvType, *r1.Recv, *r2.Recv, map[[2]*value]bool{}, nil)
+		return simplifyBool(r)
+	})
 	reg("RUnchanged", func(fr *frame, a []value) value {
 		r := fr.i.x.s2results[a[0].(int)]
 		return sameVal(*r.Recv, r.Prior)
